@@ -1,0 +1,38 @@
+//go:build verif
+
+package settings
+
+// verifSliceSettingsSurviveTheMerge (ghost scenario, bounded): merging the settings of two sources, a list-valued
+// setting (the trusted-proxy CIDRs) is the later source's when that source supplies one and the earlier source's
+// otherwise - a source that does not mention the setting never erases it - and the same holds for a flag.
+func verifSliceSettingsSurviveTheMerge(first []string, second []string, firstSet bool, secondSet bool, flag bool) bool {
+	a, b := &Settings{}, &Settings{}
+	if firstSet {
+		a.trustedProxyCIDRs = append([]string{}, first...)
+		a.trustForwardedHeaders = &flag
+	}
+	if secondSet {
+		b.trustedProxyCIDRs = append([]string{}, second...)
+	}
+	m := mergeSettings(a, b)
+	want := []string(nil)
+	switch {
+	case secondSet:
+		want = second
+	case firstSet:
+		want = first
+	}
+	got := m.trustedProxyCIDRs
+	if (got == nil) != (!firstSet && !secondSet) || len(got) != len(want) {
+		return false
+	}
+	for i := range want {
+		if got[i] != want[i] {
+			return false
+		}
+	}
+	if firstSet && (m.trustForwardedHeaders == nil || *m.trustForwardedHeaders != flag) {
+		return false
+	}
+	return true
+}
